@@ -98,12 +98,12 @@ WellFormed(t) ==
 
 (* depth 1: every node over the leaves *)
 D1 == {t \in Nodes(Leaves, Leaves, Leaves) : IsCanon(t)}
-(* depth 2, spine space: a node with exactly one depth-1 child; the depth-1 child is taken over the inner *)
-(* leaves {a, b, -1, 2}, the sibling operands over all leaves                                            *)
+(* depth 2, spine space: a node with exactly one depth-1 child; the depth-1 child and the sibling operands *)
+(* are taken over the inner leaves {a, b, -1, 2} (the full leaf set at depth 2 is covered by sampling)     *)
 InnerLeaves == {<<"v", 1>>, <<"v", 2>>, <<"c", -1>>, <<"c", 2>>}
 Inner == Nodes(InnerLeaves, InnerLeaves, InnerLeaves)
-D2 == {t \in Nodes(Inner, Leaves, Leaves) \cup Nodes(Leaves, Inner, Leaves) \cup
-             {<<"m", c, x, y>> : c \in Leaves, x \in Leaves, y \in Inner} : IsCanon(t)}
+D2 == {t \in Nodes(Inner, InnerLeaves, InnerLeaves) \cup Nodes(InnerLeaves, Inner, InnerLeaves) \cup
+             {<<"m", c, x, y>> : c \in InnerLeaves, x \in InnerLeaves, y \in Inner} : IsCanon(t)}
 
 (* sampling: the AST is decoded from a vector of entropy words (15 bit each); the node at heap index i  *)
 (* uses word rv[i], its children are at 3i-1, 3i, 3i+1                                                   *)
@@ -133,9 +133,9 @@ Plan == [varshapes |-> VarShapes, targets |-> TargetShapes, positions |-> Positi
          caselabels |-> CaseLabels, indexchoices |-> IndexChoices]
 
 (* D2 is enumerated branch by branch (no materialised set): the distinct-state count of the run is |D2| *)
-InitD2 == \/ \E t \in Nodes(Inner, Leaves, Leaves) : IsCanon(t) /\ ast = t
-          \/ \E t \in Nodes(Leaves, Inner, Leaves) : IsCanon(t) /\ ast = t
-          \/ \E c \in Leaves, x \in Leaves, y \in Inner : IsCanon(<<"m", c, x, y>>) /\ ast = <<"m", c, x, y>>
+InitD2 == \/ \E t \in Nodes(Inner, InnerLeaves, InnerLeaves) : IsCanon(t) /\ ast = t
+          \/ \E t \in Nodes(InnerLeaves, Inner, InnerLeaves) : IsCanon(t) /\ ast = t
+          \/ \E c \in InnerLeaves, x \in InnerLeaves, y \in Inner : IsCanon(<<"m", c, x, y>>) /\ ast = <<"m", c, x, y>>
 Init == IF Part = "d1" THEN n = 0 /\ ast \in D1 /\ PrintT(<<"AST", 0, ast>>)
         ELSE IF Part = "d2" THEN n = 0 /\ InitD2 /\ PrintT(<<"AST", 0, ast>>)
         ELSE IF Part = "plan" THEN n = 0 /\ ast = <<"c", 0>> /\ PrintT(<<"PLAN", Plan>>)
